@@ -5,6 +5,7 @@
 #include "nmtools/utility/shape.hpp"
 #include "nmtools/array/index/normalize_axis.hpp"
 #include "nmtools/utility/unwrap.hpp"
+#include "nmtools/utility/has_value.hpp"
 
 namespace nmtools::index
 {
@@ -19,6 +20,18 @@ namespace nmtools::index
         if constexpr (!meta::is_constant_index_array_v<result_t>
             && !meta::is_fail_v<result_t>
         ) {
+            // an axis that is only known at run time is validated at run time: outside [-dim,dim) yields Nothing
+            constexpr auto runtime_axis = !meta::is_constant_index_v<axis1_t> || !meta::is_constant_index_v<axis2_t>;
+            using return_t = meta::conditional_t<runtime_axis,nmtools_maybe<result_t>,result_t>;
+
+            const auto m_axis1 = normalize_axis(axis1,src_dim);
+            const auto m_axis2 = normalize_axis(axis2,src_dim);
+            if constexpr (runtime_axis) {
+                if (!has_value(m_axis1) || !has_value(m_axis2)) {
+                    return return_t{meta::Nothing};
+                }
+            }
+
             if constexpr (meta::is_resizable_v<result_t>) {
                 result.resize(src_dim);
             }
@@ -27,16 +40,14 @@ namespace nmtools::index
                 at(result,i) = i;
             }
 
-            // TODO: propagate error handling
-            auto m_axis1 = unwrap(normalize_axis(axis1,src_dim));
-            auto m_axis2 = unwrap(normalize_axis(axis2,src_dim));
+            auto tmp = at(result,unwrap(m_axis1));
+            at(result,unwrap(m_axis1)) = at(result,unwrap(m_axis2));
+            at(result,unwrap(m_axis2)) = tmp;
 
-            auto tmp = at(result,m_axis1);
-            at(result,m_axis1) = at(result,m_axis2);
-            at(result,m_axis2) = tmp;
+            return return_t{result};
+        } else {
+            return result;
         }
-
-        return result;
     } // swapaxes_to_transpose
 
 } // nmtools::index
@@ -67,7 +78,7 @@ namespace nmtools::meta
             ) {
                 constexpr auto axis1 = to_value_v<axis1_t>;
                 constexpr auto axis2 = to_value_v<axis2_t>;
-                constexpr auto result = index::swapaxes_to_transpose(src_dim_t{},axis1,axis2);
+                constexpr auto result = unwrap(index::swapaxes_to_transpose(src_dim_t{},axis1,axis2));
                 using nmtools::len, nmtools::at;
                 return template_reduce<len(result)>([&](auto init, auto I){
                     using init_t = type_t<decltype(init)>;
